@@ -8,6 +8,7 @@ every constraint line denotes the posted constraint).  Reply side (P1): TLC enum
 the specified values (with Python types) in sol."""
 import json
 import multiprocessing as mp
+from harness.par import RobustPool
 import os
 import random
 import sys
@@ -335,7 +336,7 @@ def run(tier, seed):
         d = chk.dir / f"wire{i}"
         d.mkdir(exist_ok=True)
         parts[i] = [(a, b, c, e, str(d), g) for (a, b, c, e, _, g) in p]
-    with mp.get_context("fork").Pool(NPROC) as pool:
+    with RobustPool(NPROC) as pool:
         outs = pool.map(record_requests, parts)
     recs = [x for o in outs for x in o]
     path = chk.dir / "requests.ndjson"
@@ -365,7 +366,7 @@ def run(tier, seed):
         d = chk.dir / f"wire{i}"
         d.mkdir(exist_ok=True)
         parts[i] = [(a, b, c, str(d)) for (a, b, c, _) in p]
-    with mp.get_context("fork").Pool(NPROC) as pool:
+    with RobustPool(NPROC) as pool:
         outs = pool.map(record_conversations, parts)
     creqs = [x for o in outs for x in o[0]]
     ctraces = [x for o in outs for x in o[1]]
@@ -416,7 +417,7 @@ def run(tier, seed):
         d = chk.dir / f"wire{i}"
         d.mkdir(exist_ok=True)
         parts[i] = [(a, b, c, str(d)) for (a, b, c, _) in p]
-    with mp.get_context("fork").Pool(NPROC) as pool:
+    with RobustPool(NPROC) as pool:
         outs = pool.map(feed_replies, parts)
     for j in rjobs:
         chk.note_case(f"reply/{j[2]}/{json.dumps(j[1], sort_keys=True)}", len(j[1]["kinds"]) >= 2)
